@@ -13,11 +13,19 @@
   ordering (corollary of the value-range invariant, Proofs/Range, RangeFine, RootRange);
   `sentinel_only_after_expiry`: an alpha-beta call returns the sentinel only in a state whose clock
   has expired, and otherwise a value in [-MATE, MATE].
-  Not proved (decided by the every-k sweep with order-log replay): `reports_prefix`
-  (a larger allowance only extends the reported improvements) and the absence of index panics
-  beyond ply 99 (L1 in DESIGN.md).
+  `larger_allowance_only_extends` (Proofs/Prefix, PrefixSearch): the improvements (info lines) reported
+  with the clock expiring at consultation k are a PREFIX of those reported with any later expiry, or
+  with none — for every game, ordering oracle, table, fuel, root, and whatever the outcome of either
+  run.  Proof: a relational invariant (the two runs agree on everything but the expiry until
+  consultation k; from then on the first accepts nothing, because every acceptance at the root is
+  guarded by a fresh consultation of a sticky clock, and the second only appends), packaged
+  compositionally and carried through every function of the search by one structural tactic.
+  Not proved (decided by the every-k sweep with order-log replay): the same for the list of sent
+  boards when no improvement was reported (the fallback send), and the absence of index panics beyond
+  ply 99 (L1 in DESIGN.md: not reachable by any real time control, theoretical).
 -/
 import Walleye.Proofs.Reports
+import Walleye.Proofs.PrefixSearch
 import Walleye.Proofs.RootRange
 namespace Walleye
 open DrawTable
@@ -84,5 +92,16 @@ theorem aborted_value_never_reported (E : Nat) (hE : ∀ p, -(E : Int) ≤ g.eva
   unfold ScoreOK at this
   simp only [Gen.mateScore, Gen.posInf] at *
   omega
+
+/-- **C07**: a larger allowance never changes the sequence of improvements reported under a smaller
+    one — it only extends it (`e2 = none`: no expiry at all) -/
+theorem larger_allowance_only_extends (fuel : Nat) (root : P) (table : DrawTable) (o : O) (k : Nat)
+    (e2 : Option Nat) (hl : Later k e2) :
+    (getBestMove g ord fuel root (newSS (some k) table o)).st.infos <+:
+      (getBestMove g ord fuel root (newSS e2 table o)).st.infos :=
+  reports_prefix g ord fuel root table o k e2 hl
+
+/-- the two readings of `Later`: a later consultation, or never -/
+example : Later 5 (some 9) ∧ Later 5 none := ⟨by show 5 ≤ 9; omega, trivial⟩
 
 end Walleye
